@@ -81,6 +81,12 @@ class EdgeLandmark(BaseEdge):
         if not isinstance(self.offset, pose_type) or not isinstance(self.estimate, point_type):
             return False
 
+        # The landmark must be a point of the same spatial dimension as the pose
+        # fmt: off
+        if (pose_type, point_type) not in ((PoseSE2, PoseR2), (PoseSE3, PoseR3), (PoseR2, PoseR2), (PoseR3, PoseR3)):
+            return False
+        # fmt: on
+
         # The information matrix must be the correct size
         n = point_type.COMPACT_DIMENSIONALITY
         return self.information.shape == (n, n)
